@@ -26,6 +26,7 @@ type Obligation struct {
 	Expect string // "unsat" (proof) or "sat" (cover)
 	Pos    string
 	Quant  bool
+	Batched bool
 	// results
 	Status  string // discharged | failed | unknown | trivial
 	Backend string
@@ -108,6 +109,7 @@ type Exec struct {
 	iterMaps    map[*Cell]Value
 	named       map[string]*Term
 	specLive    *State
+	havocLog    []havocRec
 }
 
 type debugRef struct {
